@@ -44,6 +44,7 @@ func init() {
 			runC16More(c)
 			runC16Delegate(c)
 			runSetFnStore(c, "C16-SETFN")
+			importRules(c, "C04", runC04, "C16-NESTPATH", "the walker recognises the outermost object by its empty path, so every nested object must be handed a non-empty path of its own: Parent.Field, Parent.Field[i], Parent.Field[key] (rule C04-LABEL) — a nested call that is given the parent's path unchanged (an embedded field 'flattened' into its parent) is taken for the outermost object when the parent's path is empty and receives the unscoped rule set", 2, ruleIn("C04-LABEL"))
 			sharedDeclaredRules(c)
 			base(c, "STATE", "LOOP", "TEXT", "EXPORT", "FACADE")
 		},
